@@ -1,4 +1,65 @@
-(* placeholder until the theorems land *)
-From LV Require Import Base.Bytes Model.Client.
-Theorem C04_placeholder : True. Proof. exact I. Qed.
-Print Assumptions C04_placeholder.
+(* C04  The dialogue carries the exact envelope, whatever the server says.  Statements only. *)
+From Coq Require Import Strings.String.
+From LV Require Import Base.Bytes Base.Str Base.Res Model.Codec Model.Response Model.ServerInfo Model.Client
+  Spec.Xtext Proofs.ClientProofs Proofs.XtextProofs.
+
+(* Order and exactness: on every peer script the units written by send() are a prefix of
+   MAIL FROM:<reverse-path> [SMTPUTF8] [BODY=8BITMIME], RCPT TO:<a> for each recipient in
+   order, DATA, content - the addresses byte-identical to the envelope, the empty path for no
+   reverse path - followed by QUIT exactly when a step failed; content is written only when
+   MAIL, every RCPT and DATA were answered positively. *)
+Theorem C04_order_and_envelope : forall (env : envelope) (msg : bytes) (s : cst),
+  shut s = false -> panic s = false ->
+  match send env msg s with
+  | (Ok r, s') => run_post s (expected_units env msg) true s' /\ is_positive r = true
+  | (Err e, s') =>
+      (s' = s /\ local_refusal e /\
+       ((has_non_ascii_addresses env = true /\ f_utf8 (info s) = false) \/
+        (negb (is_ascii msg) = true /\ f_8bit (info s) = false)))
+      \/ (run_post s (expected_units env msg) false s' /\ reply_verdict (Err e))
+  | (Panic, _) => False
+  end.
+Proof. exact send_units. Qed.
+
+(* The extension parameters are requested exactly when needed *)
+Theorem C04_ext_iff : forall (env : envelope) (msg : bytes),
+  (In (bs "BODY=8BITMIME") (mail_opts env msg) <-> is_ascii msg = false) /\
+  (In (bs "SMTPUTF8") (mail_opts env msg) <-> has_non_ascii_addresses env = true).
+Proof.
+  intros env msg. unfold mail_opts.
+  destruct (has_non_ascii_addresses env), (is_ascii msg); cbn; split; split; intros H;
+    try reflexivity; try discriminate; try tauto;
+    repeat match goal with H : _ \/ _ |- _ => destruct H as [H|H] end;
+    try discriminate; try contradiction; auto.
+Qed.
+
+(* One command = one write = one line: every command the client renders for a transaction ends
+   in CRLF; with line-safe addresses (which C16 guarantees of every Address) it contains no
+   other CR or LF. *)
+Definition line_safe (l : bytes) : Prop := ~ In CR l /\ ~ In LF l.
+
+Theorem C04_rcpt_single_line : forall a : bytes, line_safe a ->
+  exists body, show_rcpt a = body ++ CRLF /\ line_safe body.
+Proof.
+  intros a [Hc Hl]. exists (bs "RCPT TO:<" ++ a ++ bs ">"). split.
+  - unfold show_rcpt. rewrite <- !app_assoc. reflexivity.
+  - split; intros H; apply in_app_or in H; destruct H as [H|H];
+      try (apply in_app_or in H; destruct H as [H|H]); try contradiction;
+      cbn in H; repeat (destruct H as [H|H]; [discriminate|]); contradiction.
+Qed.
+
+(* Extension parameter values are valid xtext and decode to the value (ASCII values) *)
+Theorem C04_xtext : forall v : bytes, is_ascii v = true -> xdec (xtext v) = Some v.
+Proof. exact xtext_decodes. Qed.
+Theorem C04_xtext_line_safe : forall (v : bytes) (b : N),
+  In b (xtext v) -> b <> 13 /\ b <> 10 /\ b <> 32 /\ b <> 61.
+Proof. exact xtext_line_safe. Qed.
+
+Example C04_example_xtext : xtext [97; 43; 10; 127; 61] = bs "a+2B+0A+7F+3D".
+Proof. reflexivity. Qed.
+
+Print Assumptions C04_order_and_envelope.
+Print Assumptions C04_ext_iff.
+Print Assumptions C04_rcpt_single_line.
+Print Assumptions C04_xtext.
+Print Assumptions C04_xtext_line_safe.
